@@ -128,6 +128,9 @@ func runDagCheck(c *RunCtx) {
 		}
 		pname := fmt.Sprintf("pass%d_%s_k%d_d%d", pi+1, pass.Family, pass.K, pass.D)
 		for _, sc := range scs {
+			if m := os.Getenv("VERIF_SCENARIO_MATCH"); m != "" && !strings.Contains(sc.String(), m) {
+				continue // development aid: only the scenarios whose description contains the text
+			}
 			if pass.Canon && !deepScenario(sc, c.Tier == "thorough") {
 				continue
 			}
